@@ -230,6 +230,26 @@ pub mod sync {
                 }
             }
         }
+        #[derive(Debug)]
+        pub enum TrySendError<T> {
+            Full(T),
+            Disconnected(T),
+        }
+        impl<T> SyncSender<T> {
+            pub fn try_send(&self, t: T) -> Result<(), TrySendError<T>> {
+                let mut st = self.0.state.lock().unwrap();
+                if !st.receiver_alive {
+                    return Err(TrySendError::Disconnected(t));
+                }
+                if st.queue.len() < self.0.cap {
+                    st.queue.push_back(t);
+                    trace::ENQUEUED.fetch_add(1, std::sync::atomic::Ordering::SeqCst);
+                    self.0.not_empty.notify_one();
+                    return Ok(());
+                }
+                Err(TrySendError::Full(t))
+            }
+        }
         impl<T> Clone for SyncSender<T> {
             fn clone(&self) -> Self {
                 self.0.state.lock().unwrap().senders += 1;
